@@ -173,6 +173,7 @@ def c03_monitor(ctx, tr, ix):
     mfee0 = collections.Counter()
     sys_fee = collections.Counter()
     split_gain = collections.Counter()
+    reinvested = collections.Counter()
     prev_settle_acc = None
     for kind, e in tr.events:
         if kind == "POST_BEFORE_TRADING" and prev_settle_acc is not None and e.get("accounts"):
@@ -185,11 +186,14 @@ def c03_monitor(ctx, tr, ix):
                         if ex == today8 * 1000000 and h["long"]["qty"]:
                             h1 = next((x for x in a1["holdings"] if x["id"] == h["id"]), None)
                             if h1 is not None:
-                                split_gain["STOCK"] += (h1["long"]["qty"] - h["long"]["qty"] * ratio) * h1["long"]["last"]
+                                # shares bought by a dividend reinvestment the same morning are split too
+                                split_gain["STOCK"] += (h1["long"]["qty"] - (h["long"]["qty"] + reinvested[h["id"]]) * ratio) * h1["long"]["last"]
+            reinvested.clear()
         if kind == "POST_SETTLEMENT" and e.get("accounts"):
             prev_settle_acc = e["accounts"]
         if kind == "TRADE" and e["order"] is None and e["trade"]["side"] == "BUY" and e["trade"]["book"] in ix.stock:
             sys_fee["STOCK"] += e["trade"]["commission"] + e["trade"]["tax"]          # reinvestment trade
+            reinvested[e["trade"]["book"]] += e["trade"]["qty"]
         pf = e.get("pf") if kind != "CALL" else e.get("pf_after")
         acc = e.get("after") if kind == "CALL" else e.get("accounts")
         when = e.get("when") if kind == "CALL" else e.get("cal")
